@@ -200,7 +200,9 @@ namespace nmtools::view
             } else if constexpr (is_none_v<indices_type>) {
                 static_assert( meta::is_num_v<m_array_type>
                     , "invalid source array for indexing view" );
-                return array;
+                // NOTE: return the number itself, not a (alias) view wrapper of it:
+                // a wrapper converts to the OTHER operand's type in expressions like (t > u ? t : u)
+                return static_cast<meta::get_element_type_t<m_array_type>>(array);
             } else {
                 return apply_at(array,indices);
             }
